@@ -390,6 +390,12 @@ PROBES = [
      '<xsl:variable name="L8" select="concat(\'@PIECE@\', //text()[1], \'0123456789abcdefghijklmnopqrstuvwxyzABCDEFGHIJKLMNOPQRSTUVWXYZ-+\')"/>'
      '<xsl:variable name="L64" select="concat($L8,$L8,$L8,$L8,$L8,$L8,$L8,$L8)"/>'
      '<xsl:variable name="LONG" select="substring(concat($L64,$L64,$L64,$L64,$L64,$L64,$L64,$L64,$L64,$L64,$L64,$L64,$L64,$L64,$L64,$L64), 1, @LEN@)"/>'),
+    ("ns-axis",
+     # the namespace axis: declarations in scope of every element.  The implicit `xml` namespace node is left out here: a
+     # Xerces-DOM source has none (known finding C05-dom-xml-namespace-node, exercised by its own corpus case), and any
+     # *other* difference on this axis must still alarm
+     '<nx><xsl:for-each select="//*"><n t="{name()}" c="{count(namespace::*[name() != \'xml\'])}"><xsl:for-each select="namespace::*[name() != \'xml\']"><xsl:sort select="name()"/>'
+     '<ns p="{name()}" u="{.}" on="{name(..)}"/></xsl:for-each></n></xsl:for-each><r y="{count(//namespace::*[name() != \'xml\'])}" z="{count(//namespace::p | //namespace::q)}"/></nx>', ""),
     ("id-lang",
      '<il><xsl:for-each select="//*[lang(\'en\')]"><n t="{name()}"/></xsl:for-each></il>', ""),
 ]
